@@ -5,7 +5,7 @@ import fsweep
 
 CASES = ["ref_sequence-filled", "obj_sequence", "empty_sequence", "singleton_ref", "decl_set", "enumerators", "parameters", "handlers",
          "ref_sequence-unfilled", "ref_sequence-half-filled", "warehouse-unfilled-walk", "warehouse-unfilled-product",
-         "warehouse-unfilled-sum", "expr_list-unfilled", "unattached-parameter"]
+         "warehouse-unfilled-sum", "expr_list-unfilled", "unattached-parameter", "fundecl-states"]
 
 
 def scan(d, where, keys, res, replay):
